@@ -337,6 +337,49 @@ def check_dict(rep, mod, S):
                      sample='%s: memcpy after length vs %d test' % (fn, codes['HIST']))
 
 
+def check_dict_guard_siblings(rep, mod):
+    """a dictionary may only be installed between blocks, with nothing buffered: isal_deflate_set_dict and isal_deflate_reset_dict document the same precondition"""
+    R = rep.rule('R-DICT-GUARD-SIBLINGS', 'isal_deflate_set_dict and isal_deflate_reset_dict refuse the call (ISAL_INVALID_STATE) on the same conditions on the stream: the set of internal-state fields whose loaded values '
+                 'decide the branches that lead to that return is the same in both (state, b_bytes_processed, b_bytes_valid): neither installs a dictionary over input that is buffered but not yet compressed',
+                 floor=1, unit='guard pairs')
+    codes, _ = mirror.c_values('default', ['igzip_lib.h'], [('STATE', 'ISAL_INVALID_STATE')], 'c17_codes2')
+    import fieldinit
+    fields = sorted(fieldinit.struct_fields('isal_zstream'), key=lambda x: x[1]) if hasattr(fieldinit, 'struct_fields') else []
+    off = c19.field_offsets('struct isal_zstream', ['internal_state.state', 'internal_state.b_bytes_processed', 'internal_state.b_bytes_valid', 'internal_state.has_hist', 'level', 'internal_state.block_end',
+                                                    'internal_state.block_next', 'total_in', 'avail_in'])
+    names = {v: k for k, v in off.items()}
+    got = {}
+    for fn in ('isal_deflate_set_dict', 'isal_deflate_reset_dict'):
+        f = mod.funcs.get(fn)
+        if f is None:
+            raise AnalysisBroken(fn + ' not found')
+        P = irrules.prov(mod, f)
+        ret = [i for i in f.all_insns() if i.op == 'ret'][0]
+        d = f.defs.get(ret.ops[0])
+        if d is None or d.op != 'phi':
+            raise AnalysisBroken('%s: return phi expected' % fn)
+        err = [pb for v, pb in d.extra['incoming'] if v == str(codes['STATE'])]
+        if not err:
+            raise AnalysisBroken('%s never returns ISAL_INVALID_STATE' % fn)
+        # branches with an edge into an error block (or into a block that only leads there)
+        used = set()
+        errset = set(err)
+        for b, br, c in irrules.cond_branches(mod, f):
+            if c is None:
+                continue
+            if set(br.extra['targets']) & errset:
+                for dep in P.deps(br.extra['cond']):
+                    if dep[0] == 'mem' and dep[1][0] == 'param' and dep[1][1] == 0 and dep[1][2] in names:
+                        used.add(names[dep[1][2]])
+        got[fn] = used
+    R.instance()
+    a, b = got['isal_deflate_set_dict'], got['isal_deflate_reset_dict']
+    core = {'internal_state.state', 'internal_state.b_bytes_processed', 'internal_state.b_bytes_valid'}
+    R.check(a & core == b & core and len(a & core) == 3, mod.where(mod.funcs['isal_deflate_reset_dict'], None), 'the wrong-state guards differ: isal_deflate_set_dict tests %s, isal_deflate_reset_dict tests %s (expected both: '
+            'state, b_bytes_processed, b_bytes_valid): one of them accepts a call while input is buffered and silently drops it' % (sorted(a & core), sorted(b & core)), key='R-DICT-GUARD-SIBLINGS',
+            sample='both test state, b_bytes_processed, b_bytes_valid')
+
+
 def check_dict_tail(rep, mod):
     """only the last window-size bytes of a longer dictionary matter: all three functions that copy a caller dictionary clamp its length to
     IGZIP_HIST_SIZE; the clamp keeps the LAST bytes only if the source pointer is advanced together with it (siblings must agree)."""
@@ -518,6 +561,7 @@ def main(tier):
     for c in CONFIGS:
         check_mask_range(rep, c)
     rep.attempt(check_dict, rep, mod, S)
+    rep.attempt(check_dict_guard_siblings, rep, mod)
     rep.attempt(check_mask_fresh, rep, mod, S)
     rep.attempt(check_dict_tail, rep, mod)
     rep.attempt(check_hash_clear, rep, mod)
